@@ -60,9 +60,11 @@ CLAIMS.update({
          'else reaches the abort, which callers must exclude), on elf_symbol::is_public/is_function/is_variable, on '
          'symtab_filter::matches + symtab::make_filter, and on the per-symbol statement regions of symtab::load_: a symbol is '
          'recorded once iff it is a function, IFUNC, TLS or non-absolute object with a known binding, with index, size, type, '
-         'binding, visibility, defined and common flags taken from the ELF symbol.',
-         'Scoped: libelf accessors are stubs; alias grouping by address, symbol-table choice and version lookup '
-         '(get_version_for_symbol) are not decided. STB_GNU_UNIQUE is left unconstrained in is_public.', '5 C18'),
+         'binding, visibility, defined and common flags taken from the ELF symbol. get_version_definition_for_versym (any number of '
+         'definitions, loop contract): the definition recorded is the one whose index is the low 15 bits of the Versym word, its name '
+         'comes from its first Verdaux, and it is marked default exactly when bit 15 (hidden) is clear.',
+         'Scoped: libelf accessors are stubs; alias grouping by address, symbol-table choice, get_version_for_symbol itself and '
+         'get_version_needed_for_versym are not decided. STB_GNU_UNIQUE is left unconstrained in is_public.', '5 C18'),
  'C28': ('proof',
          'symtab::make_filter()+symtab_filter::matches (real text): the corpus filter keeps exactly the public symbols and, for a '
          'kernel binary, exactly those in ksymtab; load_ region: a __ksymtab_<sym> marker of a kernel binary records <sym> (name '
@@ -74,9 +76,9 @@ CLAIMS.update({
          'obligations with NO validity precondition on the input, for: find_hash_table_section_index, '
          'lookup_symbol_from_sysv_hash_tab, setup_gnu_ht, bloom_word_at, get_elf_class_size_in_bytes, '
          'lookup_symbol_from_gnu_hash_tab (arbitrary section content and size up to 16 MiB, arbitrary symbols, any libelf call may '
-         'fail), the stt/stb/stv mappings and the per-symbol region of symtab::load_ (every st_info/st_other/st_shndx). Loops are '
+         'fail), get_version_definition_for_versym (arbitrary version-definition section), the stt/stb/stv mappings and the per-symbol region of symtab::load_ (every st_info/st_other/st_shndx). Loops are '
          'closed by inductive loop contracts (loop-rule generator).',
-         'Scoped to those functions. libelf/libdw are a ghost model; version sections (get_version_for_symbol), '
+         'Scoped to those functions. libelf/libdw are a ghost model; get_version_for_symbol / get_version_needed_for_versym, '
          'lookup_symbol_from_symtab, DWARF attribute handling and the rest of symtab::load_ are not decided.', '5 C34'),
  'C37': ('proof',
          'find_hash_table_section_index: for every section list in any order the reported kind is GNU iff a SHT_GNU_HASH exists '
